@@ -924,14 +924,13 @@ BitsPerComponent 8/16; all 1-byte and (thorough) all 2-byte partial final ASCII8
 filtered bytes, bpp 1-8); frames through decode_frame; malformed ASCII85 / frames / dictionaries; compress incl. a length sweep across the +19 margin; \
 set_content / set_plain_content; Document::compress / decompress. Non-trivial = non-empty plaintext (chains), row longer than bpp (rows), >=2 rows (frames), \
 any malformed / edit case; distinct by request text.".into();
-    let part = std::env::var("VERIF_C09_PART").unwrap_or_default();
-    let on = |p: &str| part.is_empty() || part == p;
-    if on("witness") { run_witnesses(c); }
-    if on("a85") { run_a85(c); }
-    if on("png") { run_png(c); }
-    if on("chains") { run_chains(c); }
-    if on("edit") { run_edit(c); }
+    run_witnesses(c);
+    run_a85(c);
+    run_png(c);
+    run_chains(c);
+    run_edit(c);
     // streams inside known-finding territory come last and are small, so that they cannot crowd
     // a new failure of the main streams out of the (capped) failure list
-    if on("findings") { run_parms_array(c); run_stale_parms(c); }
+    run_parms_array(c);
+    run_stale_parms(c);
 }
